@@ -82,7 +82,7 @@ func fuzzOne(t *testing.T, r req, blobs ...[]byte) {
 	budget := budgetFor(r.Entry, total)
 	if a := run(); a > budget {
 		if b := run(); b > budget {
-			t.Fatalf("VERIF-KEY=C07/alloc-unbounded/%s :: %s (opt %d) requested %d and %d bytes for %d input bytes (budget %d)", r.Entry, r.Entry, r.Opt, a, b, total, budget)
+			t.Fatalf("VERIF-KEY=%s :: %s (opt %d) requested %d and %d bytes for %d input bytes (budget %d)", allocKey(r.Entry), r.Entry, r.Opt, a, b, total, budget)
 		}
 	}
 }
@@ -111,6 +111,13 @@ func FuzzEventLog(f *testing.F) {
 	}
 	f.Add(spBody(0x20), uint8(3))
 	f.Add(spLog(0x20), uint8(0))
+	// harness-written logs with other PCR banks / one enumerated field replaced (see TestTaggedFields):
+	// the byte mutator rarely turns one registered identifier into another
+	for i := 0; i < 24; i++ {
+		b := rapid.Custom(func(t *rapid.T) []byte { b, _, _ := genTaggedLog(t); return b }).Example(i)
+		f.Add(b, uint8(i%3))
+		f.Add(rapid.Custom(func(t *rapid.T) []byte { b, _ := genTaggedSP(t); return b }).Example(i), uint8(3))
+	}
 	f.Fuzz(func(t *testing.T, data []byte, sel uint8) {
 		if len(data) > fuzzMaxLen {
 			return
